@@ -3,6 +3,7 @@ package symex
 import (
 	"fmt"
 	"go/types"
+	"net"
 	"math/big"
 	"strconv"
 	"strings"
@@ -592,6 +593,23 @@ func (P *Program) registerStd() {
 			return in.boolv(false)
 		}
 		return in.equals(src.t, src.v, want.v)
+	})
+	// ---- net: concrete address text only
+	P.reg("net.SplitHostPort", func(fr *frame, args []value) value {
+		in := fr.in
+		h, p, err := net.SplitHostPort(in.goStr(args[0], "net.SplitHostPort"))
+		if err != nil {
+			return tuple{"", "", in.mkError(err.Error())}
+		}
+		return tuple{h, p, iface{}}
+	})
+	P.reg("net.JoinHostPort", func(fr *frame, args []value) value {
+		return net.JoinHostPort(fr.in.goStr(args[0], "host"), fr.in.goStr(args[1], "port"))
+	})
+	P.reg(RepoModule+"/transports/p2p/addrmgr.GroupKey", func(fr *frame, args []value) value {
+		// the address group is a function of the address: an uninterpreted key per address object
+		fr.in.path.noteAssumption("addrmgr.GroupKey is an uninterpreted function of the address object")
+		return fmt.Sprintf("group:%p", args[0])
 	})
 	// ---- misc
 	P.reg("os.Exit", func(fr *frame, args []value) value { panic(targetPanic{msg: "os.Exit called"}) })
